@@ -37,7 +37,7 @@ Definition verr_eqb (a b : verr) : bool :=
   | ELimitsNotEquiv, ELimitsNotEquiv | EACL, EACL | ELimitEmpty, ELimitEmpty | ELimitName, ELimitName
   | ELimitDup, ELimitDup | ELimitWildOrder, ELimitWildOrder | ELimitOnlyWildGroup, ELimitOnlyWildGroup
   | ELimitZero, ELimitZero | ELimitNull, ELimitNull | ELimitQApps, ELimitQApps | ELimitQRes, ELimitQRes
-  | EQuantity, EQuantity | EQueueName, EQueueName | EDupQueue, EDupQueue | EGuaMax, EGuaMax | EMaxParent, EMaxParent
+  | EQuantity, EQuantity | EQueueName, EQueueName | ERootReserved, ERootReserved | EDupQueue, EDupQueue | EGuaMax, EGuaMax | EMaxParent, EMaxParent
   | ESumGua, ESumGua | ESumMax, ESumMax | ERuleName, ERuleName | EFilter, EFilter | ERuleFixed, ERuleFixed
   | ERuleNotLeaf, ERuleNotLeaf | ERuleNoQueue, ERuleNoQueue | ERuleLastLeaf, ERuleLastLeaf
   | ESortPolicy, ESortPolicy | ESortWeight, ESortWeight | EMaxAppsParent, EMaxAppsParent | EMaxAppsZero, EMaxAppsZero
